@@ -565,6 +565,49 @@ class NpProxy:
             return out
         return _np.isfinite(x, *a, **k)
 
+    def sqrt(self, x, *a, **k):
+        if isinstance(x, Sym):
+            return root(x, 2)
+        if isinstance(x, _np.ndarray) and x.dtype == object:
+            if not has_sym(x):
+                return _np.sqrt(demote(x), *a, **k)
+            out = _np.empty(x.shape, dtype=object)
+            for idx in _np.ndindex(*x.shape):
+                v = x[idx]
+                out[idx] = root(v, 2) if isinstance(v, Sym) else _exact_or_float_sqrt(v)
+            return out.view(type(x)) if type(x) is not _np.ndarray else out
+        return _np.sqrt(x, *a, **k)
+
+    def heaviside(self, x, h0, *a, **k):
+        """np.heaviside has no object loop: value-dependent three-way branch (recorded as path condition)"""
+        if isinstance(x, Sym) or (isinstance(x, _np.ndarray) and x.dtype == object and has_sym(x)):
+            xs = _np.asarray(x, dtype=object)
+            out = _np.empty(xs.shape, dtype=object)
+            for idx in _np.ndindex(*xs.shape):
+                v = xs[idx]
+                out[idx] = (1 if v > 0 else (0 if v < 0 else h0))
+            USED_STUBS.add("np.heaviside(symbolic) -> three-way branch on the sign (path condition recorded)")
+            if out.ndim == 0:
+                return out.item()
+            return out.view(type(x)) if isinstance(x, _np.ndarray) and type(x) is not _np.ndarray else out
+        if isinstance(x, _np.ndarray) and x.dtype == object:
+            x = demote(x)
+        return _np.heaviside(x, h0, *a, **k)
+
+    def sign(self, x, *a, **k):
+        if isinstance(x, Sym) or (isinstance(x, _np.ndarray) and x.dtype == object and has_sym(x)):
+            xs = _np.asarray(x, dtype=object)
+            out = _np.empty(xs.shape, dtype=object)
+            for idx in _np.ndindex(*xs.shape):
+                v = xs[idx]
+                out[idx] = (1 if v > 0 else (-1 if v < 0 else 0))
+            if out.ndim == 0:
+                return out.item()
+            return out.view(type(x)) if isinstance(x, _np.ndarray) and type(x) is not _np.ndarray else out
+        if isinstance(x, _np.ndarray) and x.dtype == object:
+            x = demote(x)
+        return _np.sign(x, *a, **k)
+
     def cos(self, x, *a, **k):
         return _elementwise(x, _np.cos, "cos")
 
@@ -594,6 +637,20 @@ class NpProxy:
             if any(isinstance(o, _np.ndarray) and o.dtype == object for o in ops):
                 ops = [o.astype(object) if isinstance(o, _np.ndarray) else o for o in ops]
             return _np.einsum(*ops, **kwargs)
+
+
+def _exact_or_float_sqrt(v):
+    """square root of a concrete entry of an object array: exact when the value is a rational square, else the float root"""
+    from fractions import Fraction
+    import math
+
+    f = Fraction(v) if not isinstance(v, float) else Fraction(v)
+    if f < 0:
+        return float("nan")
+    n, d = math.isqrt(f.numerator), math.isqrt(f.denominator)
+    if n * n == f.numerator and d * d == f.denominator:
+        return Fraction(n, d)
+    return math.sqrt(float(f))
 
 
 def _elementwise(x, fn, name):
